@@ -79,6 +79,9 @@ impl Case10 {
                     }
                 }
             }
+            if let Some(why) = branch_guard(&m, &ex, s) {
+                return e("discard", why);
+            }
             if m.step(s).is_err() {
                 return e("discard", format!("step {} is not admissible", i));
             }
